@@ -12,7 +12,9 @@ NL = 10
 class AddBounceHooks(QHooks):
     """addbounce() on a concrete small geometry: recipient "r\\n", a report of 3 bytes over {NL, x}"""
     tracked = frozenset(['G:bouncetext'])
-    precise = frozenset(['L:pos'])
+
+    def precise_arith(self, path):
+        return True      # concrete geometry: every index is exact
 
     def __init__(self, report):
         self.report = report
